@@ -87,6 +87,207 @@ theorem rulelist_client_rule_counterexample :
         [.query ⟨"h", 2⟩ 1, .query ⟨"h", 2⟩ 2] := by
   decide
 
+/-- **rulelist_matches_spec.** Independent specification: the cached filter answers every query of
+every history with the value of the engine installed by the latest refresh — a fold over the history
+that tracks nothing but the current engine. -/
+theorem rulelist_matches_spec {S R V : Type} [DecidableEq S] (hash : Key → S) (hok : HashOK hash)
+    (e : Key → R → V) (he : ClientFree e) (ops : List (Op S R V)) (hops : OpsClientFree ops) :
+    RL.run hash { engine := e, cache := Tbl.empty, enabled := true } ops = RL.spec e ops := by
+  have key : ∀ (ops : List (Op S R V)) (s : RL S R V), s.Inv hash → ClientFree s.engine →
+      OpsClientFree ops → RL.run hash s ops = RL.spec s.engine ops := by
+    intro ops
+    induction ops with
+    | nil => intro _ _ _ _; rfl
+    | cons op ops ih =>
+      intro s hi hcf hops
+      cases op with
+      | query k r =>
+        have hse := RL.step_engine_query (hash := hash) s k r
+        simp only [RL.run, RL.spec]
+        rw [RL.step_query_out hok hi k r,
+          ih _ (RL.step_inv hi hcf _) (by rw [hse.1]; exact hcf) (by simpa [OpsClientFree] using hops), hse.1]
+      | refresh e' =>
+        simp only [RL.run, RL.spec, RL.step]
+        congr 1
+        exact ih _ (by intro slot it hc; simp [Tbl.empty] at hc) hops.1 hops.2
+      | evict sl =>
+        simp only [RL.run, RL.spec]
+        rw [ih _ (RL.step_inv (op := .evict sl) hi hcf) (by simpa [RL.step] using hcf)
+          (by simpa [OpsClientFree] using hops)]
+        simp [RL.step]
+  exact key ops _ (by intro slot it hc; simp [Tbl.empty] at hc) he hops
+
+/-- Non-vacuity / the spec is not the model: the fold gives the expected literal answers. -/
+example :
+    let e : Key → Nat → String := fun k _ => if k.host = "ads.example" then "blocked" else "none"
+    RL.spec (S := Key) e [.query ⟨"ads.example", 2⟩ 1, .refresh (fun _ _ => "none"), .query ⟨"ads.example", 2⟩ 2] =
+      [some "blocked", none, some "none"] := by
+  decide
+
+/-- **transparent_safesearch.** The safe-search filter (question-type gate, the shared rule-list
+cache, result rebuilt for each requester from the cached engine result) answers every history of
+requests by arbitrary requesters, refreshes and evictions exactly like the gate followed by the
+current engine and the per-requester construction, without any cache. -/
+theorem transparent_safesearch {S R V W : Type} [DecidableEq S] (hash : Key → S) (hok : HashOK hash)
+    (post : R → String → V → W) (e : Key → R → V) (he : ClientFree e) (ops : List (SSOp S R V))
+    (hops : SSOpsClientFree ops) :
+    RL.ssRun hash post { engine := e, cache := Tbl.empty, enabled := true } ops = ssSpec post e ops := by
+  have key : ∀ (ops : List (SSOp S R V)) (s : RL S R V), s.Inv hash → ClientFree s.engine →
+      SSOpsClientFree ops → RL.ssRun hash post s ops = ssSpec post s.engine ops := by
+    intro ops
+    induction ops with
+    | nil => intro _ _ _ _; rfl
+    | cons op ops ih =>
+      intro s hi hcf hops
+      cases op with
+      | query host qt r =>
+        simp only [RL.ssRun, ssSpec, RL.ssStep]
+        split
+        · have hse := RL.step_engine_query (hash := hash) s ⟨host, 2 * qt⟩ r
+          simp only [RL.step_query_out hok hi ⟨host, 2 * qt⟩ r, Option.map_some]
+          rw [ih _ (RL.step_inv hi hcf _) (by rw [hse.1]; exact hcf) (by simpa [SSOpsClientFree] using hops),
+            hse.1]
+        · rw [ih _ hi hcf (by simpa [SSOpsClientFree] using hops)]
+      | refresh e' =>
+        simp only [RL.ssRun, ssSpec, RL.ssStep, RL.step]
+        congr 1
+        exact ih _ (by intro slot it hc; simp [Tbl.empty] at hc) hops.1 hops.2
+      | evict sl =>
+        simp only [RL.ssRun, ssSpec, RL.ssStep]
+        rw [ih _ (RL.step_inv (op := .evict sl) hi hcf) (by simpa [RL.step] using hcf)
+          (by simpa [SSOpsClientFree] using hops)]
+        simp [RL.step]
+  exact key ops _ (by intro slot it hc; simp [Tbl.empty] at hc) he hops
+
+/-- Non-vacuity: two requesters with different settings hit the same cached rewrite and each gets a
+result built with its own settings; a TXT question never reaches the list; the refresh takes effect. -/
+example :
+    let e : Key → Nat → String := fun k _ => if k.host = "search.example" then "safe.search.example" else ""
+    let post : Nat → String → String → String := fun ttl host v => host ++ "->" ++ v ++ " ttl=" ++ toString ttl
+    RL.ssRun (fun k : Key => k) post { engine := e, cache := Tbl.empty, enabled := true }
+      [.query "search.example" 1 10, .query "search.example" 1 3600, .query "search.example" 16 10,
+       .refresh (fun _ _ => ""), .query "search.example" 1 10] =
+      [some "search.example->safe.search.example ttl=10", some "search.example->safe.search.example ttl=3600",
+       none, none, some "search.example-> ttl=10"] := by
+  decide
+
+/-- **cache_key_bytes_injective.** The byte string `NewCacheKey` hashes (host bytes, 16-bit type,
+16-bit class, answer flag) determines all four components: two different questions never produce the
+same input of `maphash`, so `HashOK` asks of `maphash` only what a hash can give. -/
+theorem cache_key_bytes_injective (h₁ h₂ : List Nat) (qt₁ qt₂ cl₁ cl₂ : Nat) (a₁ a₂ : Bool)
+    (hq₁ : qt₁ < 65536) (hq₂ : qt₂ < 65536) (hc₁ : cl₁ < 65536) (hc₂ : cl₂ < 65536)
+    (h : keyBytes h₁ qt₁ cl₁ a₁ = keyBytes h₂ qt₂ cl₂ a₂) :
+    h₁ = h₂ ∧ qt₁ = qt₂ ∧ cl₁ = cl₂ ∧ a₁ = a₂ := by
+  unfold keyBytes at h
+  have := List.append_inj' h (by simp [keyTail])
+  refine ⟨this.1, ?_⟩
+  have ht := this.2
+  simp only [keyTail, List.cons.injEq, and_true] at ht
+  obtain ⟨t1, t2, t3, t4, t5⟩ := ht
+  refine ⟨by omega, by omega, ?_⟩
+  cases a₁ <;> cases a₂ <;> simp_all
+
+/-- **cache_key_truncated_type_counterexample.** The width matters: with the type cut to one byte, an
+A (1) and a CAA (257) question for the same host get the same key bytes. -/
+theorem cache_key_truncated_type_counterexample :
+    keyBytes [104] (1 % 256) 1 false = keyBytes [104] (257 % 256) 1 false := by decide
+
+example : keyBytes [97, 46, 98] 28 1 true = [97, 46, 98, 28, 0, 1, 0, 1] := by decide
+
+/-! ### Any schedule of lookups and refreshes under the `RWMutex` -/
+
+/-- **rulelist_no_stale_any_schedule.** For every interleaving of lookups (read lock · `Get` ·
+`MatchRequest` · `Set`+unlock, any number of them overlapping), refreshes (write lock · `Clear` ·
+engine swap+unlock) and evictions that respects the `RWMutex`: whatever any step hands back to a
+lookup is the answer of the engine that is installed at that moment, for that lookup's own requester.
+A lookup therefore never sees a value computed with a list that a completed refresh has replaced,
+and never a value computed for another requester. -/
+theorem rulelist_no_stale_any_schedule {S R V : Type} [DecidableEq S] (hash : Key → S)
+    (hok : HashOK hash) (e : Key → R → V) (he : ClientFree e) (ops : List (ROp S R V))
+    (hops : ROpsClientFree ops) (op : ROp S R V) (v : V) :
+    let s := RLS.final true hash (RLS.init e) ops
+    (s.step true hash op).2 = some v → ∃ t ∈ s.readers, v = s.engine t.key t.req := by
+  intro s hout
+  exact RLS.step_out hok (RLS.final_inv ops _ (RLS.init_inv hash e he) hops) op hout
+
+/-- **rulelist_refresh_completes_any_schedule.** Once a refresh to engine `e'` has completed
+(`wswap` in a state whose writer has cleared the cache), every answer handed out afterwards — until
+the next refresh starts — is `e'`'s, whatever lookups were in flight before and whatever
+interleaving follows. -/
+theorem rulelist_refresh_completes_any_schedule {S R V : Type} [DecidableEq S] (hash : Key → S)
+    (hok : HashOK hash) (e e' : Key → R → V) (he : ClientFree e) (ops₁ ops₂ : List (ROp S R V))
+    (hops : ROpsClientFree ops₁) (hcl : (RLS.final true hash (RLS.init e) ops₁).writer = .cleared e')
+    (hn : NoWlock ops₂) (op : ROp S R V) (v : V) :
+    let s := RLS.final true hash ((RLS.final true hash (RLS.init e) ops₁).step true hash .wswap).1 ops₂
+    (s.step true hash op).2 = some v → ∃ t ∈ s.readers, v = e' t.key t.req := by
+  intro s hout
+  have i1 := RLS.final_inv ops₁ _ (RLS.init_inv hash e he) hops
+  have i2 := RLS.step_inv i1 .wswap trivial
+  have i3 := RLS.final_inv ops₂ _ i2 (NoWlock.cf ops₂ hn)
+  have hsw : ((RLS.final true hash (RLS.init e) ops₁).step true hash .wswap).1.engine = e' ∧
+      ((RLS.final true hash (RLS.init e) ops₁).step true hash .wswap).1.writer = .idle := by
+    simp [RLS.step, hcl]
+  have hfin := RLS.final_noWlock (hash := hash) ops₂ _ hsw.2 hn
+  obtain ⟨t, ht, hv⟩ := RLS.step_out hok i3 op hout
+  exact ⟨t, ht, by rw [hv]; show s.engine t.key t.req = _; rw [hfin.1, hsw.1]⟩
+
+/-- Non-vacuity: two overlapping lookups by different requesters, a refresh that has to wait for
+them, a lookup that has to wait for the refresh; the second requester's hit and the lookup after the
+refresh get the right engine's value, and the state before `wswap` is `cleared`. -/
+example :
+    let e : Key → Nat → String := fun k _ => if k.host = "ads.example" then "blocked" else "none"
+    let e' : Key → Nat → String := fun _ _ => "none"
+    let k : Key := ⟨"ads.example", 2⟩
+    let ops₁ : List (ROp Key Nat String) :=
+      [.rlock 1 k 1, .rlock 2 k 2, .get 1, .wlock e', .mtch 1, .set 1, .get 2, .wlock e', .rlock 3 k 1, .wclear]
+    ROpsClientFree ops₁ ∧ (∃ x, (RLS.final true id (RLS.init e) ops₁).writer = .cleared x) ∧
+    RLS.run true id (RLS.init e) (ops₁ ++ [.wswap, .rlock 3 k 1, .get 3, .mtch 3, .set 3]) =
+      [none, none, none, none, none, some "blocked", some "blocked", none, none, none,
+       none, none, none, none, some "none"] := by
+  refine ⟨⟨fun _ _ _ => rfl, fun _ _ _ => rfl, trivial⟩, ⟨_, rfl⟩, by decide⟩
+
+/-- **rulelist_small_step_refines.** Scheduled sequentially (each lookup's four steps and each
+refresh's three steps back to back), the small-step machine of the any-schedule theorems gives exactly
+the answers of the atomic machine `RL.run` — the one the correspondence runs compare with the real
+filter storage on every history. -/
+theorem rulelist_small_step_refines {S R V : Type} [DecidableEq S] (hash : Key → S) (e : Key → R → V)
+    (ops : List (Op S R V)) :
+    RLS.atomicRun hash (RLS.init e) ops = RL.run hash { engine := e, cache := Tbl.empty, enabled := true } ops := by
+  have key : ∀ (ops : List (Op S R V)) (sm : RLS S R V) (s : RL S R V), sm.Sim s →
+      RLS.atomicRun hash sm ops = RL.run hash s ops := by
+    intro ops
+    induction ops with
+    | nil => intro _ _ _; rfl
+    | cons op ops ih =>
+      intro sm s h
+      have := RLS.atomic_sim hash h op
+      simp only [RLS.atomicRun, RL.run]
+      rw [this.1, ih _ _ this.2]
+  exact key ops _ _ ⟨rfl, rfl, rfl, rfl, rfl⟩
+
+example :
+    let e : Key → Nat → String := fun k _ => if k.host = "ads.example" then "blocked" else "none"
+    RLS.atomicRun (fun k : Key => k) (RLS.init e)
+      [.query ⟨"ads.example", 2⟩ 1, .query ⟨"ads.example", 2⟩ 2, .refresh (fun _ _ => "none"), .query ⟨"ads.example", 2⟩ 1] =
+      [some "blocked", some "blocked", none, some "none"] := by
+  decide
+
+/-- **rulelist_unlocked_refresh_counterexample.** The lock is necessary: if the refresh does not
+exclude lookups (`Clear` or the swap moved out of the critical section, or the old and the new filter
+object sharing one cache), the schedule lookup-miss · match(old) · Clear · swap · insert(old) leaves a
+value of the replaced list in the cache and the next lookup is answered with it. -/
+theorem rulelist_unlocked_refresh_counterexample :
+    let e : Key → Nat → String := fun k _ => if k.host = "ads.example" then "blocked" else "none"
+    let e' : Key → Nat → String := fun _ _ => "none"
+    let k : Key := ⟨"ads.example", 2⟩
+    let ops : List (ROp Key Nat String) :=
+      [.rlock 1 k 1, .get 1, .mtch 1, .wlock e', .wclear, .wswap, .set 1, .rlock 2 k 2, .get 2]
+    (RLS.run false id (RLS.init e) ops).getLast? = some (some "blocked") ∧
+      (RLS.final false id (RLS.init e) ops).engine k 2 = "none" ∧
+      -- under the lock discipline the refresh has to wait, so the same answer is still current
+      (RLS.final true id (RLS.init e) ops).engine k 2 = "blocked" := by
+  decide
+
 /-! ## Hash-prefix result cache -/
 
 /-- **hashprefix_no_stale_any_schedule.** For every interleaving of lookups (split into cache
@@ -280,6 +481,69 @@ example :
   refine ⟨?_, by decide⟩
   simp [Versioned]
 
+/-- **custom_rebuild_any_schedule.** For every interleaving of `Get` calls (split into the cache
+lookup and the compile-and-insert part, any number of them overlapping, for the same or different
+profiles) and evictions in which update times identify versions and do not go back in the order of
+the calls: a `Get` that is answered from the cache gets exactly the rules of the configuration it was
+called with (and a `Get` that compiles gets its own rules by construction). -/
+theorem custom_rebuild_any_schedule (ops : List CSOp) (tid : Nat) (c : Conf)
+    (hv : VersionedS [] (ops ++ [.get tid c])) (o : Option (List String)) :
+    ((CUS.final CUS.init ops).step (.get tid c)).2 = some o → o = cuFresh (.get c) := by
+  have key : ∀ (ops : List CSOp) (seen : List Conf) (s : CUS), s.Inv seen →
+      VersionedS seen (ops ++ [.get tid c]) →
+      ((CUS.final s ops).step (.get tid c)).2 = some o → o = cuFresh (.get c) := by
+    intro ops
+    induction ops with
+    | nil =>
+      intro seen s hi hv hout
+      simp only [List.nil_append, VersionedS] at hv
+      simp only [CUS.final, CUS.step] at hout
+      simp only [cuFresh]
+      split at hout
+      · rename_i hd
+        simp only [Option.some.injEq] at hout
+        simp [hd, ← hout]
+      · rename_i hd
+        split at hout
+        · rename_i it hc
+          split at hout
+          · simp at hout
+          · rename_i hlt
+            simp only [Option.some.injEq] at hout
+            obtain ⟨c', hm, h1, h2, h3⟩ := hi.cache_ok _ _ hc
+            have hle := hv.1 c' hm h1
+            have heq : c'.upd = c.upd := by rw [h2] at hle ⊢; omega
+            have hr : it.rules = c.rules := by rw [← h3]; exact hle.2 heq
+            simp [hd, ← hout, hr]
+        · simp at hout
+    | cons op ops ih =>
+      intro seen s hi hv hout
+      have hi' := CUS.step_inv hi op
+      cases op with
+      | get t' c' =>
+        simp only [List.cons_append, VersionedS] at hv
+        exact ih _ _ hi' hv.2 hout
+      | set t' =>
+        simp only [List.cons_append, VersionedS] at hv
+        exact ih _ _ hi' hv hout
+      | evict id =>
+        simp only [List.cons_append, VersionedS] at hv
+        exact ih _ _ hi' hv hout
+  exact key ops [] CUS.init ⟨by intro id it h; simp [CUS.init, Tbl.empty] at h, by intro t h; simp [CUS.init] at h⟩ hv
+
+/-- Non-vacuity: two overlapping `Get`s for the same profile — one with the old, one with the new
+configuration — finish in the "wrong" order, so the older engine overwrites the newer one; the next
+`Get` with the new configuration still gets the new rules. -/
+example :
+    let old : Conf := ⟨"p1", 10, ["||a^"], true⟩
+    let new : Conf := ⟨"p1", 11, ["||b^"], true⟩
+    let ops : List CSOp := [.get 1 old, .get 2 new, .set 2, .set 1]
+    VersionedS [] (ops ++ [.get 3 new]) ∧
+      CUS.run CUS.init (ops ++ [.get 3 new, .set 3, .get 4 new]) =
+        [none, none, some (some ["||b^"]), some (some ["||a^"]), none, some (some ["||b^"]), some (some ["||b^"])] := by
+  refine ⟨?_, by decide⟩
+  simp [VersionedS]
+
 /-- **custom_same_time_counterexample.** `Versioned` is necessary: if the rules change while the
 update time stays the same, the old engine keeps being applied. -/
 theorem custom_same_time_counterexample :
@@ -290,12 +554,21 @@ theorem custom_same_time_counterexample :
 #print axioms transparent_rulelist
 #print axioms rulelist_no_stale_after_refresh
 #print axioms rulelist_client_rule_counterexample
+#print axioms rulelist_matches_spec
+#print axioms transparent_safesearch
+#print axioms cache_key_bytes_injective
+#print axioms cache_key_truncated_type_counterexample
+#print axioms rulelist_no_stale_any_schedule
+#print axioms rulelist_refresh_completes_any_schedule
+#print axioms rulelist_small_step_refines
+#print axioms rulelist_unlocked_refresh_counterexample
 #print axioms transparent_hashprefix
 #print axioms hashprefix_no_stale_any_schedule
 #print axioms hashprefix_unguarded_stale_counterexample
 #print axioms hashprefix_cache_counterexample_rcode
 #print axioms hashprefix_cache_counterexample_ttl
 #print axioms custom_rebuild_on_newer
+#print axioms custom_rebuild_any_schedule
 #print axioms custom_same_time_counterexample
 
 end Agd.ResultCache
